@@ -385,3 +385,12 @@ package object
 //@ let inner = uf("conv.to", any, c.inner, obj)
 //@ ensures[C08.named.to.reject] !uf("conv.to.ok", bool, c.inner, obj) ==> err != nil
 //@ ensures[C08.named.to.value] uf("conv.to.ok", bool, c.inner, obj) && inner != nil ==> err == nil && result0 == uf("go.convert", any, inner, c.typ) && uf("go.typeof", reflect.Type, result0) == c.typ
+
+// DynamicConverter (every interface-typed position): nil <-> Nil; any other value goes through the converter the
+// dispatcher builds for its dynamic type, so the per-type range checks (uint64 above MaxInt64, ...) cannot be
+// bypassed. The result is stated against that converter's own From (conv.from), whatever the type.
+//@ func (*DynamicConverter).From
+//@ props C08
+//@ requires[C09.unlocked] !ghost("lock.w", bool, goTypeMutex) && !ghost("lock.r", bool, goTypeMutex) && goTypeMutex != nil
+//@ ensures[C08.dyn.nil] obj == nil ==> err == nil && result0 == Nil
+//@ ensures[C08.dyn.via] obj != nil && err == nil ==> existsT(k, TypeConverter, uf("conv.for", bool, k, uf("go.typeof", reflect.Type, obj)) && result0 == uf("conv.from", Object, k, obj) && uf("conv.from.ok", bool, k, obj))
